@@ -333,14 +333,16 @@ Theorem nonstale_query_exact s x coll ddoc name p cid v rest :
   views_inv s -> coll_id s coll = Some cid -> filter (is_view cid ddoc name) (s_views s) = v :: rest -> vp_stale p = false ->
   let res := sstep s x (SView coll ddoc name p) in
   exists rows,
-    sr_resp res = RRows (map render_vrow (select_rows p rows))
+    sr_resp res = RRows (map render_vrow (reduce_rows p (vd_map v) (select_rows p rows)))
     /\ (forall k, filter (fun row : vrow => String.eqb (fst (fst row)) k) rows = scratch_for s cid (vd_map v) k)
     /\ (forall k, get_doc (sr_store res) k = get_doc s k).
 Proof.
   intros Hinv Hc Hf Hst. cbv zeta. cbn [sstep]. rewrite Hc, Hf, Hst. cbn [sr_resp sr_store].
-  exists (vd_rows (update_view s v)). split; [reflexivity|]. split; [|reflexivity].
   assert (In v (filter (is_view cid ddoc name) (s_views s))) as Hin by (rewrite Hf; left; reflexivity).
   apply filter_In in Hin. destruct Hin as [Hin Hv]. unfold is_view in Hv.
+  assert (vd_map (update_view s v) = vd_map v) as Hmap
+    by (destruct (update_view_indexed s v (vi_tables s Hinv) (vi_views s Hinv v Hin)) as (_ & _ & _ & _ & Hm & _); exact Hm).
+  exists (vd_rows (update_view s v)). split; [rewrite Hmap; reflexivity|]. split; [|reflexivity].
   apply andb_true_iff in Hv. destruct Hv as [Hv _]. apply andb_true_iff in Hv. destruct Hv as [Hv _]. apply N.eqb_eq in Hv.
   intros k. rewrite <- Hv. apply (updated_rows_exact s v k Hinv). apply (vi_views s Hinv v Hin).
 Qed.
@@ -374,7 +376,7 @@ Theorem C12_reachable steps x coll ddoc name p cid v rest : wf_steps steps ->
   let s := sfinal_from store0 steps in
   coll_id s coll = Some cid -> filter (is_view cid ddoc name) (s_views s) = v :: rest -> vp_stale p = false ->
   exists rows,
-    sr_resp (sstep s x (SView coll ddoc name p)) = RRows (map render_vrow (select_rows p rows))
+    sr_resp (sstep s x (SView coll ddoc name p)) = RRows (map render_vrow (reduce_rows p (vd_map v) (select_rows p rows)))
     /\ (forall k, filter (fun row : vrow => String.eqb (fst (fst row)) k) rows = scratch_for s cid (vd_map v) k).
 Proof.
   intros Hwf s Hc Hf Hst.
@@ -384,7 +386,7 @@ Qed.
 
 (* non-vacuity: a concrete reachable state with a view whose index is behind (a pending document) *)
 Definition ex_ctx (n : N) : sctx := mkSctx (n * 65536 * 1000) 100 20000000.
-Definition ex_p : vparams := mkVparams false false None None None true None.
+Definition ex_p : vparams := mkVparams false false None None None true None true.
 Definition ex_steps : list (sctx * sop) :=
   [(ex_ctx 1, SPutDDoc default_coll "dd" [("v", 1)]);
    (ex_ctx 2, SKv default_coll "a" (KSetRaw 0 false "{""a"":1}"));
